@@ -3,7 +3,7 @@ import z3
 from ..engine import AND, OR, NOT
 from ..values import is_variant, payload
 from .. import replay as rp
-from .setops import bits_for, fnr, decode_ab, prog_ab, built
+from .setops import premise_group, bits_for, fnr, decode_ab, prog_ab, built
 
 from ..validate import validation_group
 BOUNDS = {'quick': {'alternatives_of_A': '1..2', 'alternatives_of_B': 1}, 'thorough': {'alternatives_of_A': '1..3', 'alternatives_of_B': 1}}
@@ -17,6 +17,7 @@ def groups(tier):
     gs += [{'name': 'self-%d' % ka, 'fn': self_group, 'args': {'ka': ka}} for ka in range(1, K + 1)]
     gs += [{'name': 'hybrid-%dx1' % ka, 'fn': hybrid_group, 'args': {'ka': ka}} for ka in range(1, K + 1)]
     gs.append(validation_group(('allows_all',), tier))
+    gs.append(premise_group(tier))
     return gs
 
 
@@ -42,8 +43,8 @@ def judge_all(case):
     return prog, judge
 
 
-def rank_group(s, ka, hybrid=False):
-    h = s.harness(L=1, cap_bs=max(2 * ka, 2), rank_bits=bits_for(2 * (ka + 1) + 1), hybrid=hybrid, field_bits=(3 if hybrid else 0))
+def rank_group(s, ka, hybrid=False, concrete=False):
+    h = s.harness(L=1, cap_bs=max(2 * ka, 2), rank_bits=(0 if concrete else bits_for(2 * (ka + 1) + 1)), hybrid=hybrid, field_bits=(3 if hybrid else 0))
     s.ri_sites(h)
     A, _ = h.range_('A', ka, allow_any=True)
     B, Bbs = h.range_('B', 1, allow_any=True)
